@@ -19,6 +19,8 @@ def run(ctx):
     unescape(ctx, "R3")
     chain(ctx, "R4")
     html_model(ctx, "R5")
+    from . import common_quote as Q
+    Q.rule_space(ctx, "R7")
     links_model(ctx, "R6")
 
 
